@@ -140,15 +140,40 @@ class CallableObj:
 		return Obj('CallableObj', s1)
 
 
+class Left:
+	"""Left.Opt / Right.Opt and Left.create / Right.create differ only in the class they live in"""
+	class Opt(Made):
+		fid = 'Left.Opt'
+
+		def __init__(self) -> None:
+			self._init()
+
+	@classmethod
+	def create(cls, s0: S0) -> Obj:
+		return Obj('Left.create', s0)
+
+
+class Right:
+	class Opt(Made):
+		fid = 'Right.Opt'
+
+		def __init__(self) -> None:
+			self._init()
+
+	@classmethod
+	def create(cls, s0: S0, s1: S1) -> Obj:
+		return Obj('Right.create', s0, s1)
+
+
 maker_a = Maker('a')
 maker_b = Maker('b')
 callable_obj = CallableObj()
 lam_plain = lambda: Obj('lam_plain')  # noqa: E731
 lam_plain2 = lambda: Obj('lam_plain2')  # noqa: E731
 
-SYMBOLS = {'S0': S0, 'S1': S1, 'S2': S2, 'G': G, 'G[int]': G[int], 'G[str]': G[str]}
-ORIGIN = {'S0': 'S0', 'S1': 'S1', 'S2': 'S2', 'G': 'G', 'G[int]': 'G', 'G[str]': 'G'}
-LEVEL = {'S0': 0, 'S1': 1, 'S2': 2, 'G': 3}
+SYMBOLS = {'S0': S0, 'S1': S1, 'S2': S2, 'G': G, 'G[int]': G[int], 'G[str]': G[str], 'L.Opt': Left.Opt, 'R.Opt': Right.Opt}
+ORIGIN = {'S0': 'S0', 'S1': 'S1', 'S2': 'S2', 'G': 'G', 'G[int]': 'G', 'G[str]': 'G', 'L.Opt': 'L.Opt', 'R.Opt': 'R.Opt'}
+LEVEL = {'S0': 0, 'S1': 1, 'S2': 2, 'G': 3, 'L.Opt': 2, 'R.Opt': 2}
 
 # name -> (callable, annotated parameter list [(name, symbol-origin | python type)], dotted path or None)
 FACTORIES = {
@@ -168,6 +193,10 @@ FACTORIES = {
 	'f_annot': (f_annot, ['S1', int], 'vf.props.c19_universe.f_annot'),
 	'CtorDep': (CtorDep, ['S0'], 'vf.props.c19_universe.CtorDep'),
 	'CtorDep2': (CtorDep2, ['S0', 'S1'], 'vf.props.c19_universe.CtorDep2'),
+	'L.Opt': (Left.Opt, [], None),
+	'R.Opt': (Right.Opt, [], None),
+	'Left.create': (Left.create, ['S0'], None),
+	'Right.create': (Right.create, ['S0', 'S1'], None),
 	'maker_a.make': (maker_a.make, ['S0'], None),
 	'maker_b.make': (maker_b.make, ['S0'], None),
 	'maker_a.make_plain': (maker_a.make_plain, [], None),
@@ -181,5 +210,6 @@ PRODUCT_FID = {
 	'S0': 'S0', 'S1': 'S1', 'S2': 'S2', 'G': 'G', 'f_plain': 'f_plain', 'f_plain2': 'f_plain2', 'f_dep0': 'f_dep0',
 	'f_dep01': 'f_dep01', 'f_union': 'f_union', 'f_annot': 'f_annot', 'f_tail': 'f_tail', 'f_tail2': 'f_tail2', 'f_mid': 'f_mid', 'f_gen': 'f_gen',
 	'CtorDep': 'CtorDep', 'CtorDep2': 'CtorDep2', 'maker_a.make': 'Maker.make:a', 'maker_b.make': 'Maker.make:b',
+	'L.Opt': 'Left.Opt', 'R.Opt': 'Right.Opt', 'Left.create': 'Left.create', 'Right.create': 'Right.create',
 	'maker_a.make_plain': 'Maker.make_plain:a', 'callable_obj': 'CallableObj', 'lam_plain': 'lam_plain', 'lam_plain2': 'lam_plain2',
 }
